@@ -26,6 +26,18 @@ def cases(seed, tier):
         rng = random.Random(sub_seed(seed, "c16l", i))
         out.append({"group": "extra", "seed": sub_seed(seed, "c16ls", i), "chained": i % 2 == 1, "loss": ["exp", "square", "product"][i % 3],
                     "which": rng.choice(["a", "m", "s", "am", "ms", "ams", "ams"]), "ns": rng.choice([20, 40]), "holder": "em", "late": True})
+    # f and log p as two methods of ONE object that share a tensor under the same attribute (nn.Module / EditableModule)
+    nsh = 30 if tier == "quick" else 300
+    for i in range(nsh):
+        rng = random.Random(sub_seed(seed, "c16s", i))
+        out.append({"group": "extra", "kind": "shared_obj", "seed": sub_seed(seed, "c16ss", i), "holder": ["nn", "em", "em_owner"][i % 3],
+                    "loss": ["exp", "square", "product"][(i // 3) % 3], "ns": rng.choice([20, 40]), "rgmask": rng.choice([[1, 1, 1], [1, 0, 1], [1, 1, 0], [1, 0, 0]])})
+    # chain states of another dtype than the model (float32 / integer-valued x0, float64 f and log p), deterministic custom step
+    nx = 30 if tier == "quick" else 300
+    for i in range(nx):
+        rng = random.Random(sub_seed(seed, "c16d", i))
+        out.append({"group": "extra", "kind": "x0dtype", "seed": sub_seed(seed, "c16ds", i), "xdtype": ["float32", "int64", "float32", "int32", "float64"][i % 5],
+                    "ns": rng.choice([3, 7, 10, 33, 100, 257]), "nb": rng.choice([0, 1, 4]), "const": i % 4 == 0})
     return out
 
 
@@ -48,7 +60,170 @@ def _loss(kind, y):
     return y.prod() + y.sum()
 
 
+def run_shared(desc):
+    import xitorch
+    from xitorch.integrate import mcquad
+    obs = Obs(desc)
+    tg = torch.Generator().manual_seed(desc["seed"])
+    ns, lb, ub = desc["ns"], -8.0, 8.0
+    vals = {"a": 0.5 + torch.rand(2, generator=tg, dtype=DT), "m": 0.4 * torch.randn(1, generator=tg, dtype=DT), "s": 0.9 + 0.4 * torch.rand(1, generator=tg, dtype=DT)}
+    V = {k: torch.randn(v.shape, generator=tg, dtype=DT) for k, v in vals.items()}
+    mask = dict(zip(("a", "m", "s"), desc["rgmask"]))
+    holder = desc["holder"]
+    mech = "shared_obj:%s:%s" % (holder, desc["loss"])
+
+    def fbody(x, a):
+        return (a * x * x + torch.sin(a * x)).reshape(-1)
+
+    def lbody(x, a, mu, sg):
+        return (-0.5 * ((x - mu - 0.2 * a.mean()) / sg) ** 2).sum()          # log p uses the SAME tensor a as f
+
+    def run(kind):
+        lv = {k: v.clone().requires_grad_(bool(mask[k])) for k, v in vals.items()}
+        if kind == "ref":
+            y = _ref(lv["a"], lv["m"] + 0.2 * lv["a"].mean(), lv["s"], ns, lb, ub)
+            leaves = [lv[k] for k in ("a", "m", "s") if mask[k]]
+        elif holder == "nn":
+            class M(torch.nn.Module):
+                def __init__(self):
+                    super().__init__()
+                    self.a = torch.nn.Parameter(lv["a"].detach().clone(), requires_grad=bool(mask["a"]))
+                    self.m = torch.nn.Parameter(lv["m"].detach().clone(), requires_grad=bool(mask["m"]))
+                    self.s = torch.nn.Parameter(lv["s"].detach().clone(), requires_grad=bool(mask["s"]))
+
+                def ff(self, x):
+                    return fbody(x, self.a)
+
+                def lp(self, x):
+                    return lbody(x, self.a, self.m, self.s)
+            o = M()
+            y = mcquad(o.ff, o.lp, torch.zeros(1, dtype=DT), method="_dummy1d", nsamples=ns, lb=lb, ub=ub)
+            leaves = [t for t, k in ((o.a, "a"), (o.m, "m"), (o.s, "s")) if mask[k]]
+        else:
+            class Dist(object):
+                def __init__(self):
+                    self.m, self.s = lv["m"], lv["s"]
+
+            class E(xitorch.EditableModule):
+                def __init__(self):
+                    self.a = lv["a"]
+                    self.dist = Dist() if holder == "em_owner" else None
+                    if holder == "em":
+                        self.m, self.s = lv["m"], lv["s"]
+
+                def _ms(self):
+                    return (self.dist.m, self.dist.s) if holder == "em_owner" else (self.m, self.s)
+
+                def ff(self, x):
+                    return fbody(x, self.a)
+
+                def lp(self, x):
+                    return lbody(x, self.a, *self._ms())
+
+                def getparamnames(self, methodname, prefix=""):
+                    if methodname == "ff":
+                        return [prefix + "a"]
+                    if methodname == "lp":
+                        return [prefix + "a"] + [prefix + n for n in (("dist.m", "dist.s") if holder == "em_owner" else ("m", "s"))]
+                    raise KeyError(methodname)
+            o = E()
+            y = mcquad(o.ff, o.lp, torch.zeros(1, dtype=DT), method="_dummy1d", nsamples=ns, lb=lb, ub=ub)
+            leaves = [lv[k] for k in ("a", "m", "s") if mask[k]]
+        names = [k for k in ("a", "m", "s") if mask[k]]
+        L = _loss(desc["loss"], y)
+        g = torch.autograd.grad(L, leaves, create_graph=True, allow_unused=True)
+        g = [torch.zeros_like(l) if gi is None else gi for gi, l in zip(g, leaves)]
+        H = sum((gi * V[k]).sum() for gi, k in zip(g, names) if gi.requires_grad)
+        gg = torch.autograd.grad(H, leaves, allow_unused=True) if isinstance(H, torch.Tensor) and H.requires_grad else [None] * len(leaves)
+        gg = [torch.zeros_like(l) if gi is None else gi for gi, l in zip(gg, leaves)]
+        return y.detach(), [x.detach() for x in g], [x.detach() for x in gg], names
+    try:
+        y1, g1, h1, names = run("xitorch")
+    except Exception as e:
+        obs.exc_violation("extra:" + mech, e)
+        obs.nontrivial = True
+        return obs.result()
+    y2, g2, h2, _ = run("ref")
+    obs.check(float((y1 - y2).abs().max()) <= 1e-10 * (1 + float(y2.abs().max())), "extra_value:" + mech, "value differs from the explicit weighted mean")
+    sc = max(1.0, max(float(x.abs().max()) for x in g2))
+    for n_, a_, b_ in zip(names, g1, g2):
+        err = float((a_ - b_).abs().max())
+        obs.check(err <= 1e-9 * sc, "extra_grad1:%s:%s" % (n_, mech), "first-order gradient w.r.t. %s (f and log p are methods of one object sharing the tensor a) "
+                  "differs by %.3e (scale %.2e)" % (n_, err, sc))
+    sc2 = max(1.0, max(float(x.abs().max()) for x in h2))
+    for n_, a_, b_ in zip(names, h1, h2):
+        err = float((a_ - b_).abs().max())
+        obs.check(err <= 1e-8 * sc2, "extra_grad2:%s:%s" % (n_, mech), "Hessian-vector product w.r.t. %s differs by %.3e (scale %.2e)" % (n_, err, sc2))
+    obs.count("extra_shared_object_compared")
+    obs.nontrivial = True
+    return obs.result()
+
+
+def run_x0dtype(desc):
+    from xitorch.integrate import mcquad
+    obs = Obs(desc)
+    tg = torch.Generator().manual_seed(desc["seed"])
+    ns, nb = desc["ns"], desc["nb"]
+    xdt = getattr(torch, desc["xdtype"])
+    integer = not xdt.is_floating_point
+    if integer:
+        x0 = torch.randint(-3, 4, (2,), generator=tg).to(xdt)
+
+        def step(x, *pp):                     # deterministic walk on the integer lattice
+            return (x * 3 + 1) % 7 - 3
+    else:
+        x0 = (torch.randn(2, generator=tg, dtype=DT) * 0.5).to(xdt)
+
+        def step(x, *pp):                     # deterministic chaotic map kept in x's own dtype
+            return (torch.sin(x * 2.7 + 0.3) * 1.5).to(x.dtype)
+    a = (0.5 + torch.rand(2, generator=tg, dtype=DT)).requires_grad_()
+    mu = (0.3 * torch.randn(2, generator=tg, dtype=DT)).requires_grad_()
+    cconst = torch.randn(3, generator=tg, dtype=DT)
+
+    def f(x, a_):
+        if desc["const"]:
+            return cconst + 0.0 * a_.sum()
+        xx = x.to(DT)
+        return torch.cat([a_ * xx * xx, torch.sin(a_ * xx).sum().reshape(1)])
+
+    def logp(x, mu_):
+        return (-0.5 * (x.to(DT) - mu_) ** 2).sum()
+    mech = "x0dtype:%s:%s" % (desc["xdtype"], "const" if desc["const"] else "f")
+    try:
+        y = mcquad(f, logp, x0, fparams=(a,), pparams=(mu,), method="mhcustom", nsamples=ns, nburnout=nb, custom_step=step)
+        ga, = torch.autograd.grad(y.sum(), (a,), allow_unused=True)
+    except Exception as e:
+        obs.exc_violation("extra:" + mech, e)
+        obs.nontrivial = True
+        return obs.result()
+    chain = [x0]
+    for _ in range(nb + ns + 1):
+        chain.append(step(chain[-1]))
+    obs.check(y.dtype == DT, "extra:dtype:" + mech, "f and log p compute in float64 but the result is %s" % y.dtype)
+    best, bestg = None, None
+    for start in (nb, nb + 1):                # first sample = state number nburnout or nburnout+1 (both accepted, as in the main groups)
+        a2 = a.detach().clone().requires_grad_()
+        ref = sum(f(xk, a2) for xk in chain[start:start + ns]) / ns
+        gr, = torch.autograd.grad(ref.sum(), (a2,), allow_unused=True)
+        err = float((y.detach() - ref.detach()).abs().max())
+        if best is None or err < best:
+            best, bestg, scale = err, gr, 1.0 + float(ref.detach().abs().max())
+    obs.check(best <= 1e-13 * scale * max(1.0, ns ** 0.5), "extra:value:" + mech,
+              "result differs from the mean of f over the %d chain states by %.3e (chain states of dtype %s; weights must sum to one in the model's precision)" % (ns, best, desc["xdtype"]), ns=ns)
+    ga = torch.zeros_like(a) if ga is None else ga
+    bestg = torch.zeros_like(a) if bestg is None else bestg
+    errg = float((ga - bestg).abs().max())
+    obs.check(errg <= 1e-12 * (1.0 + float(bestg.abs().max())) * max(1.0, ns ** 0.5), "extra:grad:" + mech, "gradient w.r.t. f's parameter differs from the mean of df/da over the chain states by %.3e" % errg)
+    obs.count("extra_x0dtype_compared")
+    obs.nontrivial = True
+    return obs.result()
+
+
 def run_case(desc):
+    if desc.get("kind") == "shared_obj":
+        return run_shared(desc)
+    if desc.get("kind") == "x0dtype":
+        return run_x0dtype(desc)
     import xitorch
     from xitorch.integrate import mcquad
     obs = Obs(desc)
